@@ -60,7 +60,7 @@ PID_COLS = ['pid', 'lagr_pos', 'tagged', 'density', 'lagr_idx', 'aux']
 KINDS = ['rvint', 'pack9', 'packedpid', 'pid']
 BOXES = [2000.0, 500.0, 1000.0, 1185.0, 7.5, 296.0, 123.456, 1.0]
 VELZ = [1.0, 31234.5, 45000.0, 1234.5678, 200000.0, 0.37]
-PPDS = [6912.0, 6912, 1728.0, 2304, 576.0, 64, 6300.0000001, 32767.0]
+PPDS = [6912.0, 6912, 1728.0, 2304, 576.0, 64, 6300.0000001, 32767.0, 63.99999999999999, 6911.999999999996, 3.9999999999999996]  # incl. NP**(1/3)-style values a hair below the integer
 NONE_NAMES = ['packedpid_A', 'packedpid_B', 'pid_A']
 OPT_IN_NONE_NAMES = {'rvint_A': 'rvint', 'rvint_B': 'rvint', 'pack9_A': 'pack9'}  # cleaned_rvpid-style names; generated since the read_asdf dispatch fix
 
